@@ -318,6 +318,20 @@ def dict_copy(I, st, fv, args, kwargs, ctx):
 def h_anyall(is_all):
     def h(I, st, fv, args, kwargs, ctx):
         its = I.known_items(st, args[0])
+        if its is None and isinstance(args[0], Ref) and st.heap[args[0].oid].fields.get("$map") is not None:
+            # any(f(x) for x in S) / all(…) over a symbolic list S whose comprehension was a pure map:
+            # the spec function "every item satisfies pred" on the Seq carrier; ∀-elimination at a
+            # member is available to contracts through I.anyall_folds
+            from . import spec as _S
+            seq, x, body = st.heap[args[0].oid].fields["$map"]
+            want = bool(is_all)
+
+            def pred(t, _body=body, _x=x, _want=want):
+                tr = vm.truthy(z3.substitute(_body, (_x, t)))
+                return tr if _want else z3.Not(tr)
+            f = _S.Fold(I, "anyall!%d" % I.new_oid(), pred)
+            I.__dict__.setdefault("anyall_folds", []).append((f, seq, is_all))
+            return [(st, BoolV(f.sfn(seq) if is_all else z3.Not(f.sfn(seq))))]
         if its is None:
             raise OutOfReach("any/all over symbolic iterable")
         ts = [I.truth_in(st, x) for x in its]
